@@ -41,6 +41,7 @@ DBDIR = os.path.join(build.REPO, "database")
 SRC = ["native/sched/vsched.cpp", "native/sched/bodies.cpp", "native/sched/bodies.h"]
 BODIES = ["reg", "spec", "kin", "basic", "adv", "trn", "trm", "inv", "err", "cpp"]
 TRANSPORT_BODIES = {"trn", "trm"}
+MODEL_BODIES = ["pitz", "sit", "llnl"]      # same brine input on mini.dat + PITZER / SIT / LLNL block: the other activity-model code paths
 
 
 # ------------------------------------------------------------------------------------------------ build
@@ -184,11 +185,13 @@ def part_s(tier, exe, syms, ev, findings, dl, stats):
     jobs = core.NCPU
     scratch = tempfile.mkdtemp(prefix="vs", dir=drv.SCRATCH_ROOT if os.path.isdir(drv.SCRATCH_ROOT) else None)
     allpairs = list(itertools.combinations_with_replacement(BODIES, 2))
+    modelpairs = list(itertools.combinations_with_replacement(MODEL_BODIES, 2)) + [(m, "spec") for m in MODEL_BODIES]
     if tier == "quick":
         b1 = [("reg", "reg"), ("spec", "spec"), ("basic", "basic"), ("inv", "inv"), ("err", "err"), ("cpp", "cpp"), ("kin", "kin"), ("trm", "trm"),
               ("reg", "spec"), ("reg", "cpp"), ("reg", "err"), ("spec", "kin"), ("inv", "err"), ("trm", "spec")]
-        plan = [(0, allpairs), (1, b1), (1, [("reg", "reg", "reg")]), (2, [("reg", "reg")])]
+        plan = [(0, allpairs + modelpairs), (1, b1 + [("pitz", "pitz")]), (1, [("reg", "reg", "reg")]), (2, [("reg", "reg")])]
     else:
+        allpairs = list(itertools.combinations_with_replacement(BODIES + MODEL_BODIES, 2))
         plan = [(0, allpairs), (1, allpairs), (1, [("reg", "reg", "reg"), ("reg", "spec", "cpp"), ("spec", "kin", "basic"), ("load", "load")]),
                 (2, [("reg", "reg"), ("reg", "reg", "reg"), ("reg", "spec"), ("reg", "cpp"), ("spec", "spec"), ("spec", "cpp"), ("basic", "basic"),
                      ("inv", "inv"), ("err", "err"), ("err", "spec"), ("spec", "kin")]),
@@ -411,7 +414,7 @@ def part_t(tier, ev, findings, dl, stats):
         # the bodies that run TRANSPORT are left out: their race on transport.cpp's file-scope variables is established
         # deterministically by part S (known finding F2); under a free-running scheduler it would only add reports
         # whose set changes from run to run
-        fbodies = [b for b in BODIES if b not in TRANSPORT_BODIES]
+        fbodies = [b for b in BODIES + MODEL_BODIES if b not in TRANSPORT_BODIES]
         p = subprocess.run([exe, MINI, DBDIR, scratch, str(reps)] + fbodies, stdout=subprocess.PIPE, stderr=subprocess.PIPE, text=True, env=env, timeout=max(60, dl.left() + 120))
         reports = re.split(r"={18}\n", p.stderr)
         n = 0
